@@ -22,7 +22,7 @@ SPEC = {
              'triples; a pair is non-trivial when it carries >=2 special tags, a non-lower-case special tag, or amount <= 0; '
              'distinct = distinct (amount, tags) pairs'),
     'exhaustive': {'quick': True, 'thorough': True},
-    'required_counters': ['js_pairs_evaluated', 'py_pairs_evaluated', 'cashflow_triples'],
+    'required_counters': ['js_pairs_evaluated', 'py_pairs_evaluated', 'cashflow_triples', 'report_level_pairs'],
     'assumptions': ['node v20 executes the block as a browser would (no DOM/Vue use inside the block)',
                     'amounts are IEEE doubles on both sides (tally parses amounts with float())'],
 }
@@ -57,7 +57,9 @@ process.stdout.write(JSON.stringify(out));
 """
 
 SPECIAL = ['income', 'investment', 'transfer']
-ORDINARY = ['groceries', 'Recurring', 'café', 'ÜBER', '東京', 'incomes', 'transfers', 'invest', 'in come', '']
+ORDINARY = ['groceries', 'Recurring', 'café', 'ÜBER', '東京', 'incomes', 'transfers', 'invest', 'in come', '',
+            # ordinary words that are also property names of every JavaScript object
+            'constructor', '__proto__', 'toString', 'hasOwnProperty', 'valueOf', 'CONSTRUCTOR', '__PROTO__', 'prototype', 'length', 'tostring']
 # near misses: a normalisation added on one side only (trim, NFKC, strip punctuation, prefix match) shows up here
 for _t in ('income', 'investment', 'transfer'):
     ORDINARY += [' ' + _t, _t + ' ', '\t' + _t.upper(), _t + '\n', '#' + _t, _t + 's', _t[:-1], _t.replace('e', 'é', 1),
@@ -157,7 +159,7 @@ def classify_key(a, tl, js, py):
     return 'bucket-value-differs'
 
 
-def judge_pairs(rec, pairs, flows):
+def judge_pairs(rec, pairs, flows, py_pairs=None, label=''):
     tally = core.import_tally()
     from tally import classification as cl
     node = shutil.which('node') or shutil.which('nodejs')
@@ -186,7 +188,7 @@ def judge_pairs(rec, pairs, flows):
     for idx, ((a, tl), js) in enumerate(zip(pairs, out['pairs'])):
         rec.case()
         rec.count('js_pairs_evaluated')
-        py = py_side(cl, a, tl)
+        py = py_side(cl, *(py_pairs[idx] if py_pairs is not None else (a, tl)))
         rec.count('py_pairs_evaluated')
         tags = [] if tl in (None, 'MISSING') else tl
         specials = [x for x in tags if x.lower() in SPECIAL]
@@ -198,9 +200,9 @@ def judge_pairs(rec, pairs, flows):
         same = ('error' not in js and js['c'] == py['c'] and js['ex'] == py['ex'] and
                 all(js[k] is None or js[k] == py[k] for k in ('inc', 'tr', 'inv')))
         if not same:
-            rec.violation(classify_key(a, tl, js, py),
-                          f'amount={a!r} tags={tl!r}: JS {js} != Python {py}',
-                          {'kind': 'pair', 'a': a, 't': tl, 'before': [list(x) for x in pairs[max(0, idx - 3):idx]]})
+            rec.violation(classify_key(a, tl, js, py) + label,
+                          f'amount={a!r} tags={tl!r}{(" (analysis holds " + repr(py_pairs[idx][1]) + ")") if py_pairs is not None else ""}: JS {js} != Python {py}',
+                          {'kind': 'pair' if py_pairs is None else 'report-level', 'a': a, 't': tl, 'before': [list(x) for x in pairs[max(0, idx - 3):idx]]})
     for f3, jv in zip(flows, out['flows']):
         rec.case()
         rec.count('cashflow_triples')
@@ -210,6 +212,40 @@ def judge_pairs(rec, pairs, flows):
                           {'kind': 'flow', 'f': f3})
         if f3[2] != 0 and f3[1] != f3[0]:
             rec.interesting(['flow'] + f3)
+
+
+def report_level(rec, rnd, n):
+    """End to end for the tag lists: the (amount, tags) pairs the PAGE holds for each merchant (decoded from a real report) go to the JavaScript,
+    the pairs the ANALYSIS holds for the same merchant go to Python.  Whatever the report writer does to the tag list on the way is observed."""
+    import copy
+    from vt.checks import c12
+    tally = core.import_tally()
+    from tally import analyzer as A
+    tmp = tempfile.mkdtemp(prefix='vt-c13r-')
+    js_pairs, py_pairs = [], []
+    try:
+        for k in range(n):
+            txns, _ = c12.gen_txns(rnd)
+            stats = A.analyze_transactions(copy.deepcopy(txns))
+            path = os.path.join(tmp, 'r%d.html' % k)
+            A.write_summary_file_vue(stats, path, year=2025, currency_format='${amount}', sources=['Amex'], embedded_html=True)
+            data, err = c12.extract_data(open(path, encoding='utf-8').read())
+            os.unlink(path)
+            if err:
+                continue
+            rec.count('reports_decoded')
+            for cat in data['categoryView'].values():
+                for sub in cat['subcategories'].values():
+                    for m in sub['merchants'].values():
+                        held = sorted(stats['by_merchant'].get(m['displayName'], {}).get('tags', set()))
+                        for tx in m['transactions'][:3]:
+                            js_pairs.append((tx['amount'], list(m.get('tags') or [])))
+                            py_pairs.append((tx['amount'], held))
+    finally:
+        shutil.rmtree(tmp, ignore_errors=True)
+    rec.count('report_level_pairs', len(js_pairs))
+    if js_pairs:
+        judge_pairs(rec, js_pairs, [], py_pairs=py_pairs, label=':tags-as-delivered-by-the-report')
 
 
 def run(rec, shard, nshards, t):
@@ -222,12 +258,15 @@ def run(rec, shard, nshards, t):
         flows.append([round(rnd.uniform(0, 1e5), 2), round(rnd.uniform(0, 1e5), 2), round(rnd.uniform(0, 1e4), 2)])
     flows += [[0.0, 0.0, 0.0], [0.1, 0.2, 0.3], [1e12, 0.01, 1e-9], [5.0, 10.0, 0.0]]
     judge_pairs(rec, pairs, flows)
+    report_level(rec, rnd, 60 if t == 'quick' else 1500)
     for p in pairs[:3] + pairs[len(pairs) // 2: len(pairs) // 2 + 2]:
         rec.sample({'amount': p[0], 'tags': p[1]})
 
 
 def replay(rec, case):
-    if case.get('kind') == 'flow':
+    if case.get('kind') == 'report-level':
+        report_level(rec, core.rng_for('C13', 'replay'), 300)
+    elif case.get('kind') == 'flow':
         judge_pairs(rec, [], [case['f']])
     else:
         judge_pairs(rec, [tuple(x) for x in case.get('before', [])] + [(case['a'], case['t'])], [])
